@@ -306,6 +306,9 @@ struct Shrinker {
             if (!reduced) { if (chunk <= 1) break; n = std::min(len, n * 2); }
         }
     }
+    void merge_ops() {
+        for (size_t i = 0; i + 1 < best.p.size() && !out_of_budget(); ) { Op m; if (w.merge(best.p[i], best.p[i + 1], m)) { Triple t = best; t.p[i] = m; t.p.erase(t.p.begin() + i + 1); if (test(t)) continue; } i++; }
+    }
     void shrink_args() {
         for (int round = 0; round < 3 && !out_of_budget(); round++) {
             bool any = false;
@@ -321,7 +324,7 @@ struct Shrinker {
         t0 = now_s();
         for (int it = 0; it < 4 && !out_of_budget(); it++) {
             size_t before = best.p.size() * 100000 + best.c.size();
-            ddmin_plan(); shrink_choices(); shrink_args();
+            ddmin_plan(); merge_ops(); shrink_choices(); shrink_args();
             if (best.p.size() * 100000 + best.c.size() == before) break;
         }
     }
